@@ -430,6 +430,7 @@ impl Check for C09 {
             corp.len(),
             if ctx.tier == Tier::Thorough { "; k = 2: all ordered pairs of edits on programs of at most 16 tokens" } else { "" }
         );
+        ctx.rule.push_str("; every separator between two tokens removed where the reference lexer keeps them apart; the variants of a line break after a token that does not continue the statement are also held to the reference front end and interpreter");
         let mut n_edits = 0u64;
         let mut seen_cont: std::collections::HashSet<String> = std::collections::HashSet::new();
         let mut groups: Vec<Group> = vec![];
